@@ -185,7 +185,8 @@ func (mo *e1Monitor) onEvent(e vcoop.Event) {
 		} else if mo.holder != -1 {
 			mo.flag("exclusivity", fmt.Sprintf("the calling goroutine performs %s on the shared stream while task T%d holds it", e.Detail, mo.holder))
 		}
-	case vcoop.OpStore, vcoop.OpCAS, vcoop.OpSwap:
+	case vcoop.OpStore, vcoop.OpCAS, vcoop.OpSwap, vcoop.OpAdd:
+		// any write to an atomic by the holder counts as passing the token on (store, CAS, swap, add)
 		if t != 0 && e.Kind == vcoop.OpStore && e.Val == -1 {
 			mo.cancelAt = mo.nEv
 		}
